@@ -22,6 +22,7 @@ Search: the property itself: for elastic and every shipped deformation model/var
 import ast
 import os
 import sys
+import time
 import xml.etree.ElementTree as ET
 
 sys.path.insert(0, os.path.dirname(os.path.abspath(__file__)))
@@ -118,6 +119,32 @@ def gen_case(rng, ndim, mat, nsteps, mesh=None, load=None):
     a = float(material(mat).alpha(Tb))
     d = [h * (a * (float(np.mean(T[k + 1])) - float(np.mean(T[0]))) + load * rng.uniform(-6e-4, 6e-4)) for k in range(nsteps)]
     return dict(ndim=ndim, mat=mat, mesh=mesh, r=r, t=t, h=h, times=times, p=p, T=T.tolist(), d=d, solver=dict(FD_SOLVER), load=load)
+
+
+class HistoryTimeout(Exception):
+    pass
+
+
+class time_limit:
+    """wall-clock guard for one real history: a sub-increment that does not converge with miter=50 and
+    the line search costs 30-500 s before the adaptive loop gives up; such histories are skipped anyway"""
+
+    def __init__(self, seconds):
+        self.seconds = seconds
+
+    def _raise(self, *a):
+        raise HistoryTimeout()
+
+    def __enter__(self):
+        import signal
+        self.old = signal.signal(signal.SIGALRM, self._raise)
+        signal.setitimer(signal.ITIMER_REAL, self.seconds)
+
+    def __exit__(self, *a):
+        import signal
+        signal.setitimer(signal.ITIMER_REAL, 0)
+        signal.signal(signal.SIGALRM, self.old)
+        return False
 
 
 def solve_w(solver, tube, i, state_n, d):
@@ -489,10 +516,18 @@ def run(ctx):
                 plan.append((2, m, 3))
     found, skipped, worst_el, worst_in = [], [], 0.0, 0.0
     n_kink, n_steps, sing_steps = [0], [0], []
+    per_history, total_budget = (20.0, 130.0) if quick else (300.0, 1500.0)
+    t_fd, unexplored = time.time(), []
     for ndim, mat, ns in plan:
         case = gen_case(rng, ndim, mat, ns)
+        if time.time() - t_fd > total_budget:
+            unexplored.append((ndim, mat, ns))
+            continue
         try:
-            bad, rows, skip = fd_case(case)
+            with time_limit(per_history):
+                bad, rows, skip = fd_case(case)
+        except HistoryTimeout:
+            bad, rows, skip = [], [], "exceeded the per-history time budget of %g s (non-converging sub-increments)" % per_history
         except Exception as e:
             bad, rows, skip = [("raises", "%s: %s" % (type(e).__name__, e))], [], None
         key = (ndim, mat, ns, round(case["r"], 6), round(case["h"], 6))
@@ -526,10 +561,13 @@ def run(ctx):
                          ("; e.g. %dD %s load x%g step %d at %s" % (sing_steps[0]["ndim"], sing_steps[0]["mat"], sing_steps[0]["load"],
                                                                     sing_steps[0]["step"], sing_steps[0]["where"][0][0])) if sing_steps else ""))
     ctx.extra["fd_skipped_nonconverged"] = [list(map(str, s)) for s in skipped[:10]]
+    ctx.extra["fd_histories_not_run_total_budget"] = [list(map(str, u)) for u in unexplored]
+    if unexplored:
+        ctx.notes.append("%d planned histories not run: FD phase reached its %g s budget" % (len(unexplored), total_budget))
     if skipped:
-        ctx.notes.append("%d of %d histories skipped because a real step did not converge" % (len(skipped), len(plan)))
+        ctx.notes.append("%d of %d histories skipped because a real step did not converge or the history exceeded %g s" % (len(skipped), len(plan), per_history))
     ctx.obligation("property predicate: stiffness == central difference of force and > 0 at every step of %d real "
-                   "histories" % len(plan), not found and len(skipped) <= len(plan) // 4,
+                   "histories" % len(plan), not found and len(skipped) + len(unexplored) <= len(plan) // 4,
                    ("%d failures; first: %s" % (len(found), found[0][1])) if found else
                    "all hold; worst rel. difference elastic %.2e, inelastic %.2e; %d skipped" % (worst_el, worst_in, len(skipped)))
 
